@@ -1,4 +1,193 @@
-(* C08 -- property theorems only (placeholder while the proofs are being written). *)
-From Coq Require Import List Arith.
-From TLV Require Import Base.Shape Base.Tensor Model.Structure.
+(* C08 -- property theorems only.  Statements are about the structural model of the decompositions
+   (Model/Structure.v: rank validators, shape flow, loop skeleton of the CP drivers) and, over R, about
+   matrices given as functions nat -> nat -> R with explicit dimensions (Proofs/StructureProofsR.v).
+   `_partial` = holds under the named extra hypothesis; `_refuted` = witness that the hypothesis is needed
+   for the code as it is (known findings); `_fix_` = the same statement at full strength for the skeleton of the
+   candidate repair. *)
+From Coq Require Import List Arith ZArith QArith Reals Bool Lia.
+From TLV Require Import Base.Shape Base.Tensor Base.RSum Model.Structure Proofs.StructureProofs Proofs.StructureProofsR.
 Import ListNotations.
+Local Open Scope nat_scope.
+
+(* ================================================================== shapes and ranks (nat logic) *)
+
+(* validate_tt_rank: whatever the specification (int, list, fraction / 'same'; rounding; constant_rank;
+   allow_overparametrization) an accepted rank has n+1 entries and boundary ranks 1 *)
+Theorem C08_validate_tt_rank_boundary : forall shape spec constant rd ao c r, shape <> [] ->
+  validate_tt_rank shape spec constant rd ao c = Ok r ->
+  length r = S (length shape) /\ hd 0 r = 1 /\ last r 0 = 1.
+Proof. exact validate_tt_rank_boundary. Qed.
+Print Assumptions C08_validate_tt_rank_boundary.
+Example C08_validate_tt_rank_boundary_ex :
+  validate_tt_rank [3; 4; 5] (RFrac (1 # 2)) false RRound false (7 # 10) = Ok [1; 2; 3; 1].
+Proof. vm_compute. reflexivity. Qed.
+
+(* tensor_train: one order-3 core per mode, core k = (r_k, I_k, r_k+1), boundary ranks 1, achieved ranks bounded by
+   the validated request -- for every order (induction over the list of modes) *)
+Theorem C08_tensor_train_structure : forall shape spec c cores,
+  tensor_train shape spec c = Ok cores ->
+  exists requested, validate_tt_rank shape spec false RRound true c = Ok requested /\
+  let rs := core_ranks cores in
+  length cores = length shape /\ core_modes cores = shape /\
+  length rs = S (length shape) /\ hd 0 rs = 1 /\ last rs 0 = 1 /\
+  (forall k, k < length shape -> nth k cores [] = [nth k rs 0; nth k shape 0; nth (S k) rs 0]) /\
+  (forall k, k <= length shape -> nth k rs 0 <= nth k requested 0).
+Proof. exact tensor_train_structure. Qed.
+Print Assumptions C08_tensor_train_structure.
+Example C08_tensor_train_structure_ex : tensor_train [2; 3; 4] (RInt 5) 0 = Ok [[1; 2; 2]; [2; 3; 4]; [4; 4; 1]].
+Proof. vm_compute. reflexivity. Qed.
+
+(* validate_tr_rank: n+1 entries, first = last *)
+Theorem C08_validate_tr_rank_boundary : forall shape spec rd r, validate_tr_rank shape spec rd = Ok r ->
+  length r = S (length shape) /\ hd 0 r = last r 0.
+Proof. exact validate_tr_rank_boundary. Qed.
+Print Assumptions C08_validate_tr_rank_boundary.
+
+(* tensor_ring, any start mode: one core per mode in the ORIGINAL mode order, consecutive cores share a rank and the
+   ring closes (last rank = first rank) *)
+Theorem C08_tensor_ring_structure : forall shape spec mode cores, tensor_ring shape spec mode = Ok cores ->
+  length cores = length shape /\ core_modes cores = shape /\ cyc_chain cores /\
+  nth 2 (last cores []) 0 = nth 0 (hd [] cores) 0.
+Proof. exact tensor_ring_structure. Qed.
+Print Assumptions C08_tensor_ring_structure.
+Example C08_tensor_ring_structure_ex : tensor_ring [4; 3; 2] (RList [2; 1; 3; 2]) 1 = Ok [[2; 4; 1]; [1; 3; 3]; [3; 2; 2]].
+Proof. vm_compute. reflexivity. Qed.
+
+(* tucker / HOOI: factor k is I_k x c_k, the core is c_0 x ... x c_N-1 with c_k = min(requested_k, I_k) whenever the
+   factors come from an SVD (every case except random init with zero iterations, where c_k = requested_k) *)
+Theorem C08_tucker_structure : forall shape spec c ri n out, tucker shape spec c ri n = Ok out ->
+  exists requested core factors, validate_tucker_rank shape spec RRound c = Ok requested /\ out = core :: factors /\
+  length core = length shape /\ length factors = length shape /\
+  (forall k, k < length shape -> nth k factors [] = [nth k shape 0; nth k core 0]) /\
+  (ri && (n =? 0) = false -> forall k, k < length shape -> nth k core 0 = Nat.min (nth k requested 0) (nth k shape 0)) /\
+  (ri && (n =? 0) = true -> core = requested).
+Proof. exact tucker_structure. Qed.
+Print Assumptions C08_tucker_structure.
+Example C08_tucker_structure_ex : tucker [2; 5] (RList [4; 3]) 0 false 1 = Ok [[2; 3]; [2; 2]; [5; 3]].
+Proof. vm_compute. reflexivity. Qed.
+(* U[:, :r] of the truncated SVD of an s x p unfolding has min r s columns, whatever p is *)
+Theorem C08_svd_shapes_cols : forall s p r, fst (fst (svd_shapes s p r)) = Nat.min r s.
+Proof. exact svd_shapes_cols. Qed.
+Print Assumptions C08_svd_shapes_cols.
+
+(* parafac / non_negative_parafac / non_negative_parafac_hals: weights (r), factor k is I_k x r, r the validated rank *)
+Theorem C08_parafac_structure : forall shape spec out, parafac shape spec = Ok out ->
+  exists r, validate_cp_rank shape spec RRound = Ok r /\ out = [r] :: map (fun s => [s; r]) shape.
+Proof. exact parafac_structure. Qed.
+Print Assumptions C08_parafac_structure.
+
+(* ================================================================== the normalisation contract (loop skeleton) *)
+(* St: any state space; sweep: one ALS / MU / HALS sweep; normalise: cp_normalize; decisions: per executed sweep
+   (callback asked to stop, convergence test fired) -- every history is a decision sequence *)
+
+(* the code as it is: normalize_factors = True => normalised result, for every cap (0 and 1 included), every decision
+   sequence without a callback stop, unless a user initialisation is returned without any sweep *)
+Theorem C08_cp_normalised_partial : forall (St : Type) (sweep normalise : St -> St) (Normalised : St -> Prop),
+  (forall s, Normalised (normalise s)) ->
+  forall tol_set ik all_fixed n decisions s0,
+  no_callback_stop decisions -> ik <> InitUser \/ (0 < n /\ all_fixed = false) ->
+  Normalised (cp_run St sweep normalise true tol_set ik all_fixed n decisions s0).
+Proof. exact cp_run_normalised. Qed.
+Print Assumptions C08_cp_normalised_partial.
+(* both exclusions are necessary (known findings user_init_and_no_sweep, callback_stop_not_normalised) *)
+Theorem C08_cp_normalised_user_init_refuted :
+  (forall tol_set decisions, ghost_run true tol_set InitUser false 0 decisions = false) /\
+  (forall tol_set n decisions, ghost_run true tol_set InitUser true n decisions = false).
+Proof. exact (conj ghost_user_cap0 ghost_user_all_fixed). Qed.
+Print Assumptions C08_cp_normalised_user_init_refuted.
+Theorem C08_cp_normalised_callback_stop_refuted :
+  forall tol_set ik n decisions, ghost_run true tol_set ik false (S n) ((true, false) :: decisions) = false.
+Proof. exact ghost_callback_stop. Qed.
+Print Assumptions C08_cp_normalised_callback_stop_refuted.
+
+(* normalize_factors = False: the weights are all ones on EVERY path (every cap, every decision sequence, callback stops included) *)
+Theorem C08_cp_unit_weights : forall (St : Type) (sweep normalise : St -> St) (UnitWeights : St -> Prop),
+  (forall s, UnitWeights s -> UnitWeights (sweep s)) ->
+  forall tol_set ik all_fixed n decisions s0,
+  UnitWeights s0 -> UnitWeights (cp_run St sweep normalise false tol_set ik all_fixed n decisions s0).
+Proof. exact cp_run_unit_weights. Qed.
+Print Assumptions C08_cp_unit_weights.
+
+(* the candidate repair: the contract at full strength, and no change on the paths that were right *)
+Theorem C08_cp_fix_normalised : forall (St : Type) (sweep normalise : St -> St) (Normalised : St -> Prop),
+  (forall s, Normalised (normalise s)) ->
+  forall tol_set ik all_fixed n decisions s0,
+  Normalised (cp_run_fix St sweep normalise true tol_set ik all_fixed n decisions s0).
+Proof. exact cp_run_fix_normalised. Qed.
+Print Assumptions C08_cp_fix_normalised.
+Theorem C08_cp_fix_unit_weights : forall (St : Type) (sweep normalise : St -> St) (UnitWeights : St -> Prop),
+  (forall s, UnitWeights s -> UnitWeights (sweep s)) ->
+  forall tol_set ik all_fixed n decisions s0,
+  UnitWeights s0 -> UnitWeights (cp_run_fix St sweep normalise false tol_set ik all_fixed n decisions s0).
+Proof. exact cp_run_fix_unit_weights. Qed.
+Print Assumptions C08_cp_fix_unit_weights.
+Theorem C08_cp_fix_same : forall (St : Type) (sweep normalise : St -> St) nf tol_set ik all_fixed n decisions s0,
+  no_callback_stop decisions -> ik <> InitUser ->
+  cp_run_fix St sweep normalise nf tol_set ik all_fixed n decisions s0 = cp_run St sweep normalise nf tol_set ik all_fixed n decisions s0.
+Proof. exact cp_run_fix_same. Qed.
+Print Assumptions C08_cp_fix_same.
+
+(* the instance compared with the implementation (event traces of factor updates and cp_normalize calls) *)
+Theorem C08_trace_ends_normalised_partial : forall d tol_set ik n_modes fixed n decisions,
+  no_callback_stop decisions -> ik <> InitUser \/ (0 < n /\ all_fixed d n_modes fixed = false) ->
+  ends_normalised (trace_run d true tol_set ik n_modes fixed n decisions) = true.
+Proof. exact trace_run_ends_normalised. Qed.
+Print Assumptions C08_trace_ends_normalised_partial.
+Theorem C08_trace_never_normalises : forall d tol_set ik n_modes fixed n decisions,
+  any_normalise (trace_run d false tol_set ik n_modes fixed n decisions) = false.
+Proof. exact trace_run_never_normalises. Qed.
+Print Assumptions C08_trace_never_normalises.
+Example C08_trace_ex : trace_run NnMu true true InitSvd 3 [0] 2 [(false, false); (false, true)]
+                       = [EvN; EvU 1; EvN; EvU 2; EvN; EvU 1; EvN; EvU 2; EvN].
+Proof. vm_compute. reflexivity. Qed.
+
+(* regression witness for fix fe25b5c: the earlier control flow (break before the end-of-sweep normalisation) returned
+   un-normalised factors on the convergence exit; the present one does not *)
+Theorem C08_convergence_exit_regression :
+  ghost_run_pinned true true 2 [false; true] = false /\
+  (forall ik, ghost_run true true ik false 2 [(false, false); (false, true)] = true).
+Proof. exact (conj ghost_pinned_break ghost_repaired_break). Qed.
+Print Assumptions C08_convergence_exit_regression.
+
+(* ================================================================== canonical form over R *)
+Local Open Scope R_scope.
+
+(* Tucker / TT: U[:, :r] (any injective selection of columns) of a matrix with orthonormal columns has orthonormal columns *)
+Theorem C08_orthonormal_cols_select : forall m k k' (M : nat -> nat -> R) (sel : nat -> nat),
+  orthonormal_cols m k M ->
+  (forall a, (a < k')%nat -> (sel a < k)%nat) ->
+  (forall a b, (a < k')%nat -> (b < k')%nat -> sel a = sel b -> a = b) ->
+  orthonormal_cols m k' (fun i a => M i (sel a)).
+Proof. exact orthonormal_cols_select. Qed.
+Print Assumptions C08_orthonormal_cols_select.
+Theorem C08_orthonormal_cols_truncate : forall m k r (M : nat -> nat -> R),
+  orthonormal_cols m k M -> (r <= k)%nat -> orthonormal_cols m r M.
+Proof. exact orthonormal_cols_truncate. Qed.
+Print Assumptions C08_orthonormal_cols_truncate.
+
+(* PARAFAC2: the projection (U Vh)^T built from U (r x k) and Vh (k x n) with orthonormal rows has orthonormal
+   columns, hence every evolving factor P_i B has the cross product B^T B *)
+Theorem C08_projection_orthonormal : forall r k n (U Vh : nat -> nat -> R),
+  orthonormal_rows r k U -> orthonormal_rows k n Vh -> orthonormal_cols n r (mtranspose (mmul k U Vh)).
+Proof. exact projection_orthonormal. Qed.
+Print Assumptions C08_projection_orthonormal.
+Theorem C08_parafac2_cross_product : forall n r (P B : nat -> nat -> R) a b, orthonormal_cols n r P ->
+  rsum n (fun j => mmul r P B j a * mmul r P B j b) = rsum r (fun l => B l a * B l b).
+Proof. exact parafac2_cross_product. Qed.
+Print Assumptions C08_parafac2_cross_product.
+
+(* TT-SVD: the core obtained by reshaping U (rk*I x r, orthonormal columns) to (rk, I, r) is left-orthogonal *)
+Theorem C08_tt_core_left_orthogonal : forall rk I r (U : nat -> nat -> R), orthonormal_cols (rk * I) r U ->
+  forall b b', (b < r)%nat -> (b' < r)%nat ->
+  rsum rk (fun a => rsum I (fun i => core_of I U a i b * core_of I U a i b')) = delta b b'.
+Proof. exact tt_core_left_orthogonal. Qed.
+Print Assumptions C08_tt_core_left_orthogonal.
+
+(* one factor of cp_normalize: non-zero columns get unit norm, the scale (the column norm) times the normalised
+   column gives the column back, zero columns stay zero with scale 0 *)
+Theorem C08_normalise_factor_unit : forall I f r, colnorm2 I f r <> 0 -> colnorm2 I (normalise_factor I f) r = 1.
+Proof. exact normalise_factor_unit. Qed.
+Print Assumptions C08_normalise_factor_unit.
+Theorem C08_normalise_factor_represents : forall I f r i, (i < I)%nat -> normalise_factor I f i r * scale_of I f r = f i r.
+Proof. exact normalise_factor_represents. Qed.
+Print Assumptions C08_normalise_factor_represents.
